@@ -980,6 +980,9 @@ class Interp:
         bound = self.bind(f, args, kwargs)
         env = Env(f.closure)
         env.vars.update(bound)
+        if not getattr(f.node, "_loops_numbered", False):
+            self.number_loops(f.node)
+            f.node._loops_numbered = True
         self.func_stack.append((f.qualname, [0]))
         try:
             self.exec_block(f.node.body, env, f.module)
@@ -1157,13 +1160,37 @@ class Interp:
             if s.finalbody:
                 self.exec_block(s.finalbody, env, module)
 
-    def next_loop_id(self):
+    def next_loop_id(self, node=None):
+        """static ordinal of the loop statement within its function (source order, nested defs excluded)"""
         qn, ctr = self.func_stack[-1]
+        qn = qn.replace("__top__", "").split(":")[-1]
+        if node is not None:
+            o = getattr(node, "_loop_ord", None)
+            if o is not None:
+                return (qn, o)
         ctr[0] += 1
         return (qn, ctr[0])
 
+    @staticmethod
+    def number_loops(fnode):
+        n = [0]
+
+        def rec(stmts):
+            for s in stmts:
+                if isinstance(s, (ast.FunctionDef, ast.ClassDef, ast.Lambda)):
+                    continue
+                if isinstance(s, (ast.For, ast.While)):
+                    n[0] += 1
+                    s._loop_ord = n[0]
+                for fld in ("body", "orelse", "finalbody", "handlers"):
+                    sub = getattr(s, fld, None)
+                    if sub:
+                        rec([h for h in sub] if fld != "handlers" else [x for h in sub for x in h.body])
+
+        rec(fnode.body)
+
     def s_While(self, s, env, module):
-        lid = self.next_loop_id()
+        lid = self.next_loop_id(s)
         spec = self.loops.get(lid)
         if spec is not None:
             return spec.run_while(self, s, env, module, lid)
@@ -1181,7 +1208,7 @@ class Interp:
         self.exec_block(s.orelse, env, module)
 
     def s_For(self, s, env, module):
-        lid = self.next_loop_id()
+        lid = self.next_loop_id(s)
         it = self.eval(s.iter, env, module)
         spec = self.loops.get(lid)
         if spec is not None:
@@ -1370,6 +1397,12 @@ class Interp:
         if isinstance(op, (ast.Eq, ast.NotEq)) and (isinstance(a, Obj) or isinstance(b, Obj)):
             r = a is b
             return r if isinstance(op, ast.Eq) else not r
+        if isinstance(op, (ast.Eq, ast.NotEq)) and (hasattr(a, "_identical") or hasattr(b, "_identical")):
+            # classes without __eq__: == is identity
+            r = a._identical(b) if hasattr(a, "_identical") else b._identical(a)
+            if isinstance(op, ast.Eq):
+                return r
+            return mkbool(z3.Not(r.t)) if isinstance(r, SB) else (not r)
         f = {ast.Eq: o.eq, ast.NotEq: o.ne, ast.Lt: o.lt, ast.LtE: o.le, ast.Gt: o.gt, ast.GtE: o.ge}[type(op)]
         return f(a, b)
 
